@@ -1,5 +1,5 @@
 //@PROBE file=src/utils/clipping/bbox_own_areas.rs test=verif_probe_own_areas_c15 clauses=own_areas
-//@BOUND (a) every set of 1..=3 and 1200 pseudo-random sets of 4..=6 integer-coordinate axis-aligned boxes on a 12x12 grid (shared edges, identical and nested boxes included), exact share by unit-cell counting, tolerance 1e-3; (b) the same sets with every box given as its right-angle rotation (angle pi/2, sides swapped); (c) 600 pseudo-random sets of 2..=5 rotated boxes against a 160x160 point-sampling reference, tolerance 0.02, and the same sets with every box handed over after gen_vertices() and an in-place edit; (d) 300 sets of 2..=4 parallel elongated boxes (one common angle per set, never a right angle; displaced along their long side) against the same reference; all sets also reversed and rotated-left by one (order independence, tolerance 1e-4)
+//@BOUND (a) every set of 1..=3 and 1200 pseudo-random sets of 4..=6 integer-coordinate axis-aligned boxes on a 12x12 grid (shared edges, identical and nested boxes included), exact share by unit-cell counting, tolerance 1e-3; (b) the same sets with every box given as its right-angle rotation (angle pi/2, sides swapped); (c) 600 pseudo-random sets of 2..=5 rotated boxes against a 160x160 point-sampling reference, tolerance 0.02, and the same sets with every box handed over after gen_vertices() and an in-place edit; (e) the integer sets of 1..=2 boxes scaled by 1e-3: fully covered boxes own nothing, range, order; (d) 300 sets of 2..=4 parallel elongated boxes (one common angle per set, never a right angle; displaced along their long side) against the same reference; all sets also reversed and rotated-left by one (order independence, tolerance 1e-4)
 #[cfg(test)]
 mod verif_probe_own_areas_c15 {
     // Bounded stand-in for the contract of exclusively_owned_areas + exclusively_owned_areas_normalized_shares
@@ -94,6 +94,27 @@ mod verif_probe_own_areas_c15 {
                 }
             }
         }
+        // the same integer sets of 1..=2 boxes in frame-normalised coordinates (scaled by 1e-3: areas 1e-6..6.4e-5): a fully covered box owns
+        // nothing at any scale, every share stays in [0, 1], the order does not matter. (The share of an UNcovered box is not compared here:
+        // the library divides by area + EPS with EPS = 1e-5, which at this scale is not negligible - outside the quantified domain.)
+        for sel in sets.iter().filter(|s| s.len() <= 2) {
+            cases += 1;
+            let tiny: Vec<Universal2DBox> = sel.iter().map(|&a| { let (l, t, w, h) = al[a]; Universal2DBox::ltwh(l as f32 * 1e-3, t as f32 * 1e-3, w as f32 * 1e-3, h as f32 * 1e-3) }).collect();
+            let what = format!("PROBE input: own-areas boxes(left,top,w,h)={:?} x 0.001 [frame-normalised integer boxes]", sel.iter().map(|&a| al[a]).collect::<Vec<_>>());
+            match shares(&tiny) {
+                Err(e) => failures.push(format!("{}: {}", what, e)),
+                Ok(sh) => {
+                    for (i, &a) in sel.iter().enumerate() {
+                        let (l, t, w, h) = al[a];
+                        let covered = sel.iter().enumerate().any(|(j, &o)| { let (ol, ot, ow, oh) = al[o]; j != i && ol <= l && ot <= t && ol + ow >= l + w && ot + oh >= t + h });
+                        if !(sh[i] >= 0.0 && sh[i] <= 1.0) { failures.push(format!("{}: own_areas.share_in_unit_interval: box {} share {}", what, i, sh[i])); }
+                        if covered && sh[i] > 1e-3 { failures.push(format!("{}: own_areas.share_is_uncovered_fraction (fully covered box): box {} share {} expected 0", what, i, sh[i])); }
+                    }
+                    let rev: Vec<Universal2DBox> = tiny.iter().rev().cloned().collect();
+                    if let Ok(sr) = shares(&rev) { for i in 0..sh.len() { if (sr[sh.len() - 1 - i] - sh[i]).abs() > 1e-4 { failures.push(format!("{}: own_areas.order_independent: box {} share {} but {} when the set is reversed", what, i, sh[i], sr[sh.len() - 1 - i])); } } }
+                }
+            }
+        }
         // rotated boxes vs sampling
         for _ in 0..600 {
             let n = 2 + (next() % 4) as usize;
@@ -146,7 +167,7 @@ mod verif_probe_own_areas_c15 {
         // one line per failure class (input family x violated clause) with its first inputs
         let mut classes: std::collections::BTreeMap<String, (usize, Vec<String>)> = std::collections::BTreeMap::new();
         for f in failures.iter() {
-            let fam = if f.contains("[boxes edited after gen_vertices()]") { "edited-after-gen-vertices" } else if f.contains("[the same boxes as right-angle rotations]") { "right-angle-rotations" } else if f.contains("[parallel elongated boxes]") { "parallel-elongated" } else if f.contains("[axis-aligned integer boxes") { "axis-aligned-integer" } else { "rotated-random" };
+            let fam = if f.contains("[boxes edited after gen_vertices()]") { "edited-after-gen-vertices" } else if f.contains("[the same boxes as right-angle rotations]") { "right-angle-rotations" } else if f.contains("[parallel elongated boxes]") { "parallel-elongated" } else if f.contains("[frame-normalised integer boxes]") { "frame-normalised" } else if f.contains("[axis-aligned integer boxes") { "axis-aligned-integer" } else { "rotated-random" };
             let clause = f.split("own_areas.").nth(1).map(|r| r.split(|c: char| c == ':' || c == ' ').next().unwrap_or("?")).unwrap_or("?");
             let e = classes.entry(format!("{}/own_areas.{}", fam, clause)).or_insert((0, vec![]));
             e.0 += 1; if e.1.len() < 3 { e.1.push(f.clone()); }
